@@ -19,6 +19,27 @@ SIMPLE = {
 }
 
 
+def _payload_edits(f, pv, o):
+    """in-place edits (`a.dedup()`, `b.truncate(n)`, `s.make_ascii_lowercase()`) of the payload between its extraction from the
+    value and the return: the term of an edited local is still the term of its definition (DESIGN 3.18)"""
+    from lib import codec
+    if o["idx"] == "term":
+        return ["the Ok value is a call result"]
+    st = f.blocks[o["bb"]]["stmts"][o["idx"]]
+    ops = list(st["rv"].get("ops", []))
+    out = []
+    seen = 0
+    while ops and seen < 8:
+        op = ops.pop()
+        seen += 1
+        out.extend(pv.tampered(op, o["bb"], o["idx"]))
+        d = codec.find_def_stmt(pv, op, o["bb"], o["idx"])
+        if d and d[0] == "stmt" and d[1]["k"] == "aggr":
+            for op2 in d[1].get("ops", []):
+                out.extend(pv.tampered(op2, d[2], d[3]))
+    return sorted(set(out))
+
+
 def check_extractors(ctx, rule, only=None):
     prog = ctx.prog
     for name, (variant, want) in sorted(SIMPLE.items()):
@@ -31,11 +52,14 @@ def check_extractors(ctx, rule, only=None):
         rest = [o for o in outs if o["kind"] != "ok"]
         good = len(oks) == 1 and strip_sites(oks[0]["inner"]) == want \
             and path_variants(prog, pv, oks[0]["conds"]).get(P0) == {variant}
+        edits = _payload_edits(f, pv, oks[0]) if len(oks) == 1 else []
+        good = good and not edits
         type_errors = all(o["kind"] == "call" and is_call(o["term"]) and o["term"][1].startswith("util::cbor_type_error")
                           and strip_sites(o["term"][2][0]) in (("ref", P0, False), P0) for o in rest) and len(rest) >= 1
         ctx.ob(rule, "extractor:%s" % name, good and type_errors,
                "%s returns the payload of Value::%s itself on that variant and the type error of the whole value otherwise" % (name, variant),
-               where=f.span, detail={"exits": [(o["kind"], show(o["inner"] if o.get("inner") is not None else o["term"])[:100]) for o in outs]})
+               where=f.span, detail={"exits": [(o["kind"], show(o["inner"] if o.get("inner") is not None else o["term"])[:100]) for o in outs],
+                                     "edited_in_place": edits})
     if only is None:
         from rules import c10 as _c10
         _c10.check_convert_helper(ctx, rule)          # try_as_array_then_convert: f over every element of the ARRAY, in order
